@@ -56,6 +56,8 @@ class Recorder:
         obj = ((variables ** 2).sum(axis=1) + r)[:, None]
         if getattr(self, "fail_perturbations", False) and perts is not None:
             obj[perts >= 0] = np.nan                 # every perturbed evaluation fails: no realization is left for the gradient
+        if getattr(self, "three_objectives", False):
+            obj = np.concatenate([obj, obj + variables[:, :1], 2.0 * obj - variables[:, 2:3]], axis=1)
         return EvaluatorResult(objectives=obj)
 
     def take(self):
@@ -98,7 +100,9 @@ def drive_script(sc):
     if not sc["nested"] and zlib.crc32(str(sc["script"]).encode()) % 2 == 1:
         from ..transforms_util import make_transforms
         s_, o_ = np.array([2.0, 0.5, 4.0]), np.array([1.0, -1.0, 2.0])
-        transforms = make_transforms(var_scales=s_, var_offsets=o_)
+        # (... and as many objectives as variables, scaled by an objective transform: a square gradient matrix)
+        transforms = make_transforms(var_scales=s_, var_offsets=o_, obj_scales=[2.0, 2.0, 2.0])
+        rec.three_objectives = True
         fm = np.array(mask, dtype=bool)
         for item in script:
             for key in ("x", "batch"):
@@ -107,6 +111,11 @@ def drive_script(sc):
         start = ((np.array(X0) - o_) / s_).tolist()
     cfg = base_config(sc, "rvscript/script")
     cfg["optimizer"]["options"] = {"script": script}
+    if getattr(rec, "three_objectives", False):
+        cfg["objectives"] = {"weights": [1.0, 0.5, 0.25]}
+    if zlib.crc32(("linear" + str(sc["script"])).encode()) % 2 == 0:
+        # a (slack) linear constraint in the configuration: fixed variables still take their values from the start vector
+        cfg["linear_constraints"] = {"coefficients": [[1.0, 1.0, 1.0]], "lower_bounds": [-np.inf], "upper_bounds": [1e6]}
     if zlib.crc32(("all perturbations fail" + str(sc["script"])).encode()) % 4 == 0:
         # threshold zero and every perturbed evaluation fails: whatever is reported as gradient, fixed entries are exactly zero
         cfg["realizations"]["realization_min_success"] = 0
